@@ -138,9 +138,28 @@ class ListCase(object):
         L = self.L
         n = len(L or [])
         ops = ['append', 'append', 'extend', 'setitem', 'setpos', 'clear', 'reset', 'sort', 'reverse', 'slice-set',
-               'clone', 'read', 'read', 'read', 'bad-get', 'bad-index', 'bad-value', 'neg-set']
+               'clone', 'read', 'read', 'read', 'bad-get', 'bad-index', 'bad-value', 'neg-set', 'fill-out-of-order']
         op = rng.choice(ops)
         x = rng.randint(0, 9)
+        if op == 'fill-out-of-order':
+            # k new members stored at positions n .. n+k-1 in a non-ascending order (pinned by the repository's tests:
+            # a store beyond the end pads with placeholders).  One step of the history: the sparse states in between
+            # are not observed, the dense result is what list.extend gives
+            xs = [rng.randint(0, 9) for _ in range(rng.choice([2, 3, 4]))]
+            order = list(range(len(xs)))
+            if rng.random() < 0.5:
+                order.reverse()
+            else:
+                while order == sorted(order):
+                    rng.shuffle(order)
+            by_item = rng.random() < 0.5
+            for j in order:
+                if by_item:
+                    self.obj[n + j] = self.elem(xs[j])
+                else:
+                    self.obj.setComponentByPosition(n + j, self.elem(xs[j]))
+            self.L = (L or []) + xs
+            return ('fill-out-of-order', tuple(order), tuple(xs))
         if op == 'append':
             self.obj.append(self.elem(x))
             self.L = (L or []) + [x]
@@ -187,9 +206,15 @@ class ListCase(object):
                               (TypeError, AttributeError, ValueError))
                 return (op + '-on-schema',)
             if op == 'sort':
-                self.obj.sort(key=int, reverse=rev)
-                self.L = sorted(L, reverse=rev)
-                return ('sort', rev)
+                # a key that ties distinct members half of the time: list.sort is stable with respect to position
+                coarse = rng.random() < 0.5
+                if coarse:
+                    self.obj.sort(key=lambda c: int(c) // 3, reverse=rev)
+                    self.L = sorted(L, key=lambda v: v // 3, reverse=rev)
+                else:
+                    self.obj.sort(key=int, reverse=rev)
+                    self.L = sorted(L, reverse=rev)
+                return ('sort', rev, 'coarse-key' if coarse else 'int-key')
             self.obj.reverse()
             self.L = L[::-1]
             return ('reverse',)
